@@ -10,9 +10,11 @@ the capacity checks, the second hash of double hashing and the rehash sizes are 
 (`Model/C02.lean`) writes them over `Nat` with the loop fuel built in (it returns the accumulator when the fuel runs
 out, having argued that it does not); the generated definitions are over `UInt64` / `Int`, take the caller's fuel and
 `diverge` without it.  Each theorem says: on the image of the natural numbers, with at least the stated fuel, the
-generated definition returns exactly the hand Model's value.  The three open-addressing table files themselves are NOT
-translated (closures with mutable captured state, `float32` load factors, `Put` ↔ `resize` mutual recursion,
-range-over-func iterators over a package-level generator: see the notes in DESIGN.md §4.5).
+generated definition returns exactly the hand Model's value.  Of the three open-addressing table files, `probe`, `Get`,
+`Size`, `IsEmpty` of `linear_hash_table.go` are translated as well (`Generated/C02LinGen.lean`, `Proofs/C02LinGen.lean`:
+the closure of `probe` is converted into a record + `call`); `Put`, `resize`, `Delete`, the constructors and the iterators are
+not (`float32` load factors are compared, `Put` ↔ `resize` recurse through a range-over-func iterator that shuffles with a
+package-level generator through a swap closure: see the notes in DESIGN.md §4.5).
 -/
 set_option linter.unusedSimpArgs false
 namespace AlgoVerif.C02.Gen
